@@ -390,4 +390,191 @@ theorem revealBefore_step (H : Hyp a T) (R : Ptr → Rat) {B M : List Word} {Lb 
         · rw [m4, o2] at hc'; omega
       · exact closedP_of_cn H M (bw.take k) x Lw hLwM m3
 
+
+theorem hSum_eq_psum (R : Ptr → Rat) (F h : List Word) : ∀ L, hSum R F h L = psum R F h L := by
+  intro L
+  induction L with
+  | zero => rfl
+  | succ L ih =>
+    unfold psum at ih ⊢
+    rw [dsum_snoc]
+    simp only [hSum, ih]
+
+theorem revealBeforeLoop_inv (H : Hyp a T) (R : Ptr → Rat) {B M : List Word} {Lb : Nat} {cB : Chart} {pB pM : Rat}
+    (GB : FragC a T R B Lb cB pB) :
+    ∀ (fuel k Lk : Nat) (left : LeftSt) (right : State) (acc : Rat), k + fuel = cB.right.length →
+      PB a T R M pM B.reverse k Lk left right acc →
+      ∃ Lk', PB a T R M pM B.reverse cB.right.length Lk'
+        (revealBeforeLoop T R cB.right fuel k (left, right, acc)).1
+        (revealBeforeLoop T R cB.right fuel k (left, right, acc)).2.1
+        (revealBeforeLoop T R cB.right fuel k (left, right, acc)).2.2 := by
+  intro fuel
+  induction fuel with
+  | zero =>
+    intro k Lk left right acc hk I
+    have : k = cB.right.length := by omega
+    subst this
+    exact ⟨Lk, I⟩
+  | succ fuel ih =>
+    intro k Lk left right acc hk I
+    obtain ⟨Lk', I'⟩ := revealBefore_step H R GB I (by omega)
+    simp only [revealBeforeLoop]
+    exact ih (k+1) Lk' _ _ _ (by omega) I'
+
+/-- **RevealBefore, whole protocol**: after revealing all words of the preceding fragment's right state (and
+`reveal_full` if its left state is full) `M`'s left pointers are the remaining left pointers of the concatenation and the
+accumulated adjustment is  whole − parts. -/
+theorem revealBeforeAll_frag (H : Hyp a T) (R : Ptr → Rat) {B M : List Word} {Lb Lm : Nat} {cB cM : Chart} {pB pM : Rat}
+    (GB : FragC a T R B Lb cB pB) (GM : FragC a T R M Lm cM pM) :
+    ∃ L' c', c'.left.pointers = cB.left.pointers ++ (revealBeforeAll T R cB cM).1.pointers ∧
+      FragC a T R (B ++ M) L' c' (pB + pM + (revealBeforeAll T R cB cM).2.2) := by
+  have hord : T.order = a.order := H.tf.order_eq
+  have hN2 := H.wf.order_ge
+  have sfB := GB.right_for
+  have hrev : (B ++ M).reverse = M.reverse ++ B.reverse := List.reverse_append
+  obtain ⟨Lk, I⟩ := revealBeforeLoop_inv H R GB (M := M) (pM := pM) cB.right.length 0 Lm cM.left cM.right 0 (by omega)
+    (PB.init R GM B.reverse)
+  unfold revealBeforeAll
+  generalize revealBeforeLoop T R cB.right cB.right.length 0 (cM.left, cM.right, 0) = st at I
+  obtain ⟨l, r, acc⟩ := st
+  simp only at I
+  have hnb : cB.right.length ≤ B.reverse.length := sfB.len_le_h
+  by_cases hfB : cB.left.full = true
+  · -- `reveal_full`: everything still pending is finalised
+    simp only [hfB, if_true]
+    let P := B.reverse.take cB.right.length
+    have hPl : P.length = cB.right.length := by simp only [P, List.length_take]; omega
+    have C : LoopCtx a T M P [] Lk 0 := ⟨I.Lk_le, I.xl, by rw [hPl]; exact I.bound, Nat.le_refl _⟩
+    have I0 : InvL a M P [] 0 0 { nextUse := 0, backIn := ([] : List Rat).take 0 } := by
+      refine ⟨Nat.le_refl _, by rw [hPl]; show 0 + cB.right.length + 1 + 0 ≤ a.order; have := sfB.len_le_N; omega, by simp,
+        fun kk h1 h2 => by simp at h2; omega⟩
+    obtain ⟨Lw, s1, s2, s3, s4, s5, s6, s7, s8, s9⟩ :=
+      extendLoop_sem H R C cB.right.length 0 (by rw [hPl]; simp) (Nat.zero_le _) [] I0 false (fun hc => by cases hc)
+    have hLw : Lw = 0 := s3 rfl
+    have hadd : (cB.right.words.take cB.right.length).drop cB.right.length = [] :=
+      List.drop_eq_nil_of_le (by simp; exact Nat.min_le_left _ _)
+    have hbo : (cB.right.backoff.take cB.right.length).drop cB.right.length = [] :=
+      List.drop_eq_nil_of_le (by simp; exact Nat.min_le_left _ _)
+    have hptrs0 : l.pointers = ((List.range Lk).map (fun i => pre M i ++ P)).drop 0 := by rw [I.ptrs]; rfl
+    have hres : (revealBefore T R cB.right cB.right.length true l r).2.1.pointers = [] ∧
+        (revealBefore T R cB.right cB.right.length true l r).1 =
+          (extendLoop T R cB.right.length [] [] (((List.range Lk).map (fun i => pre M i ++ P)).drop 0) false).adjust +
+            ((extendLoop T R cB.right.length [] [] (((List.range Lk).map (fun i => pre M i ++ P)).drop 0) false).backIn.take
+              (extendLoop T R cB.right.length [] [] (((List.range Lk).map (fun i => pre M i ++ P)).drop 0) false).nextUse).sum * (if l.full then 1 else 0) := by
+      unfold revealBefore
+      dsimp only
+      rw [hadd, hbo, hptrs0]
+      cases hl : l.full <;> simp <;> grind
+    have htk : ([] : List Word).take 0 = [] := rfl
+    rw [htk] at s7 s8
+    have hnu0 : (extendLoop T R cB.right.length [] [] (((List.range Lk).map (fun i => pre M i ++ P)).drop 0) false).nextUse = 0 := by
+      have := s7.nu_le; omega
+    have hadj : (revealBefore T R cB.right cB.right.length true l r).1 = dsum (doneTerm a R M P []) 0 Lk := by
+      rw [hres.2, s8, hLw, hnu0]
+      simp [dsum] <;> grind
+    -- the total
+    have hsplit := specSeq_drop_split (a := a) M P Lk 0 (by have := I.Lk_le; omega)
+    simp only [Nat.zero_add, List.drop_zero] at hsplit
+    have hg0 : gm1 M 0 = [] := by simp [gm1]
+    rw [hg0, List.nil_append] at hsplit
+    have hd : dsum (doneTerm a R M P []) 0 Lk =
+        dsum (fun i => score a (gm1 M i ++ P) (M.getD i 0)) 0 Lk - psum R M P Lk := by
+      unfold psum
+      rw [← dsum_sub]
+      apply dsum_congr
+      intro j _ _
+      simp only [doneTerm, List.append_nil]
+    have htot : pM + (acc + (revealBefore T R cB.right cB.right.length true l r).1) = specSeq a B.reverse M := by
+      have hsc : pM + acc = psum R M P Lk + specSeq a (gm1 M Lk ++ P) (M.drop Lk) := I.score
+      have hdead : specSeq a (P ++ B.reverse.drop cB.right.length) M = specSeq a P M := by
+        apply specSeq_dead H
+        intro kk hk1 hk2
+        have : P ++ (B.reverse.drop cB.right.length).take kk = B.reverse.take (cB.right.length + kk) := by
+          simp only [P]; rw [List.take_add]
+        rw [this]
+        simp only [List.length_drop] at hk2
+        exact sfB.dead _ (by omega) (by omega)
+      have hPB : P ++ B.reverse.drop cB.right.length = B.reverse := List.take_append_drop _ _
+      rw [hPB] at hdead
+      rw [hdead, hsplit, hadj, hd]
+      grind
+    obtain ⟨sR, hsR1, hsR2⟩ := stateFor_exists H (B ++ M).reverse
+    refine ⟨Lb, { left := cB.left, right := sR }, by rw [hres.1]; simp, ⟨hsR1, hsR2, by simp; have := GB.L_le; omega, GB.L_lt, ?_, ?_, ?_,
+      (fun hc => by rw [hfB] at hc; cases hc), fun _ => (GB.closed hfB).append H M⟩⟩
+    · show cB.left.pointers = _
+      rw [GB.ptrs]
+      apply List.map_congr_left
+      intro i hi
+      have : i < Lb := by simpa using hi
+      rw [pre_append B M (by have := GB.L_le; omega)]
+    · intro i hi; rw [pre_append B M (by have := GB.L_le; omega)]; exact GB.ptr_xl i hi
+    · have : pB + pM + (acc + (revealBefore T R cB.right cB.right.length true l r).1) = pB + specSeq a B.reverse M := by
+        rw [← htot]; grind
+      show pB + pM + (acc + (revealBefore T R cB.right cB.right.length true l r).1) = _
+      rw [this, GB.prob_eq, restSum_append R B M Lb GB.L_le, List.take_append_of_le_length GB.L_le,
+        List.drop_append_of_le_length GB.L_le, specSeq_append]
+      have : (B.drop Lb).reverse ++ (B.take Lb).reverse = B.reverse := by
+        rw [← List.reverse_append, List.take_append_drop]
+      rw [this]; grind
+  · -- the preceding fragment is open: all its words were revealed
+    have hfB' : cB.left.full = false := by simpa using hfB
+    simp only [hfB', Bool.false_eq_true, if_false]
+    obtain ⟨hLb, hnbB⟩ := GB.open_ hfB'
+    have hP : B.reverse.take cB.right.length = B.reverse := List.take_of_length_le (by rw [hnbB]; simp)
+    have hpB : pB = restSum R B B.length := by
+      rw [GB.prob_eq, hLb, List.drop_eq_nil_of_le (Nat.le_refl _)]; simp only [specSeq]; grind
+    have hbound : B.length + Lk ≤ a.order - 1 := by have := I.bound; omega
+    -- the right state of the description
+    have hright : ∃ sR, StateFor a (B ++ M).reverse sR ∧ NormS sR ∧ (l.full = false → sR.length = (B ++ M).length) := by
+      by_cases hl : l.full = true
+      · obtain ⟨sR, h1, h2⟩ := stateFor_exists H (B ++ M).reverse
+        exact ⟨sR, h1, h2, fun hc => by rw [hl] at hc; cases hc⟩
+      · obtain ⟨o1, o2, o3, o4⟩ := I.open_ (by simpa using hl)
+        rw [hP] at o3 o4
+        have hsf : StateFor a (B ++ M).reverse r := by
+          rw [hrev]
+          refine ⟨by rw [o2]; simp; omega, by rw [o2, hnbB]; omega, ?_, ?_, ?_⟩
+          · rw [o3, o2, hnbB, List.take_of_length_le (by simp)]
+          · rw [o4, o2, hnbB]
+          · intro kk hk1 hk2
+            rw [o2, hnbB] at hk1
+            simp only [List.length_append, List.length_reverse] at hk2
+            omega
+        obtain ⟨hn1, hn2⟩ := normS_of_stateFor hsf
+        exact ⟨normS r, hn2, hn1, fun _ => by show r.length = _; rw [o2, hnbB]; simp; omega⟩
+    obtain ⟨sR, hsR1, hsR2, hsR3⟩ := hright
+    refine ⟨B.length + Lk, { left := { pointers := cB.left.pointers ++ l.pointers, full := l.full }, right := sR }, rfl,
+      ⟨hsR1, hsR2, by simp; have := I.Lk_le; omega, hbound, ?_, ?_, ?_, ?_, ?_⟩⟩
+    · show cB.left.pointers ++ l.pointers = _
+      rw [GB.ptrs, hLb, I.ptrs, hP]
+      exact ptrs_concat B M Lk I.Lk_le
+    · intro i hi
+      by_cases hlt : i < B.length
+      · rw [pre_append B M hlt]; exact GB.ptr_xl i (by omega)
+      · obtain ⟨i', rfl⟩ : ∃ i', i = B.length + i' := ⟨i - B.length, by omega⟩
+        rw [pre_concat B M i' (by have := I.Lk_le; omega)]
+        have := I.xl i' (by omega)
+        rwa [hP] at this
+    · have hsc : pM + acc = psum R M B.reverse Lk + specSeq a (gm1 M Lk ++ B.reverse) (M.drop Lk) := by
+        have := I.score; rwa [hP] at this
+      rw [restSum_concat R B M Lk I.Lk_le, take_append_len, List.reverse_append, hSum_eq_psum]
+      have : (B ++ M).drop (B.length + Lk) = M.drop Lk := by rw [List.drop_append]; simp
+      rw [this, hpB]
+      unfold gm1 at hsc
+      grind
+    · intro hc
+      exact ⟨by have := (I.open_ hc).1; simp; omega, hsR3 hc⟩
+    · intro hc
+      have hcl := I.closed hc
+      rw [hP] at hcl
+      rcases hcl with ⟨h1, h2⟩ | ⟨h1, j, hj1, hj2, h3⟩ | ⟨h1, h2⟩
+      · left
+        exact ⟨by simp; omega, by rw [pre_concat B M Lk h1]; exact h2⟩
+      · right; left
+        refine ⟨by simp; omega, by simp only [List.length_reverse] at hj2; omega, j, hj1, by simp only [List.length_reverse] at hj2; simp; omega, ?_⟩
+        rw [hrev]; exact h3
+      · right; right
+        simp only [List.length_reverse] at h2
+        exact ⟨by simp; omega, by omega⟩
+
 end KV.Left
